@@ -9,6 +9,7 @@ import Noodles.Cram.DriverC19
 import Noodles.Bcf.DriverC10
 import Noodles.Gff.DriverC18
 import Noodles.Trunc.DriverC13
+import Noodles.Bam.DriverC05
 namespace Noodles
 open Noodles.Wire
 
@@ -24,6 +25,7 @@ def dispatch (line : String) : String :=
   | "c10" :: rest => Bcf.handleC10 rest
   | "c18" :: rest => Gff.Driver.handleC18 rest
   | "c13" :: rest => Trunc.handleC13 rest
+  | "c05" :: rest => Bam.Driver.handle rest
   | _ => "bad-suite"
 
 end Noodles
